@@ -91,18 +91,26 @@ def mpoJson (m : MPOM GQ) : Json :=
   obj [("chi", ofNatList m.chi), ("idL", ofList optJson m.idL), ("idR", ofList optJson m.idR),
        ("W", ofList (fun l => ofList ofEdge (canonLayer l)) m.layers)]
 
-/-- canonical dense form of a formal sum of matrix-unit strings: sorted `(string, coeff)` -/
+/-- canonical dense form of a formal sum of matrix-unit strings: sorted by string, equal strings
+merged, zeros dropped (sort + merge of neighbours) -/
 def canonOp (s : Sym GQ) : List (OpStr × GQ) :=
-  let merged := s.foldl (fun (acc : List (OpStr × GQ)) p =>
-    if acc.any (fun x => x.1 = p.1) then acc.map (fun x => if x.1 = p.1 then (x.1, x.2 + p.2) else x)
-    else acc ++ [p]) []
-  let nz := merged.filter (fun p => !p.2.isZero)
-  let rec ltS : OpStr → OpStr → Bool
-    | [], [] => false
-    | [], _ => true
-    | _, [] => false
-    | a :: as, b :: bs => if a < b then true else if b < a then false else ltS as bs
-  (nz.toArray.qsort (fun a b => ltS a.1 b.1)).toList
+  let keyed : Array (String × OpStr × GQ) := (s.map (fun p => ("|".intercalate p.1, p.1, p.2))).toArray
+  let sorted := keyed.qsort (fun a b => a.1 < b.1)
+  let merged := sorted.foldl (fun (acc : Array (String × OpStr × GQ)) x =>
+    match acc.back? with
+    | some y => if y.1 = x.1 then acc.pop.push (y.1, y.2.1, y.2.2 + x.2.2) else acc.push x
+    | none => acc.push x) #[]
+  (merged.toList.filter (fun x => !x.2.2.isZero)).map (fun x => (x.2.1, x.2.2))
+
+/-- Frobenius inner product of two canonical sums over orthonormal names (merge of sorted lists) -/
+def frobCanon (a b : List (OpStr × GQ)) : GQ :=
+  let ka := a.map (fun p => ("|".intercalate p.1, p.2))
+  let kb := (b.map (fun p => ("|".intercalate p.1, p.2))).toArray
+  -- b is sorted by the same key: binary search
+  ka.foldl (fun acc (k, c) =>
+    match kb.binSearch (k, (0 : GQ)) (fun x y => x.1 < y.1) with
+    | some (_, d) => acc + GQ.conj c * d
+    | none => acc) 0
 
 def opJson (s : List (OpStr × GQ)) : Json :=
   ofList (fun (p : OpStr × GQ) => Json.arr #[ofList Json.str p.1, ofGQ p.2]) s
@@ -142,7 +150,7 @@ def handleMPO (j : Json) : Except String Json := do
                    ("add_ok", dS == canonOp (den A ++ den B)), ("equal", dA == dB)]
     if finite then
       let ov := MPOM.overlapTM gramUnit GQ.conj A B
-      let fr := MPOM.frob gramUnit GQ.conj (den A) (den B)
+      let fr := frobCanon dA dB
       let nA := MPOM.overlapTM gramUnit GQ.conj A A
       let nB := MPOM.overlapTM gramUnit GQ.conj B B
       out := out ++ [("overlap", ofGQ ov), ("overlap_ok", ov == fr), ("normA", ofGQ nA), ("normB", ofGQ nB)]
